@@ -59,7 +59,7 @@ func (c04) Assumptions() []string {
 }
 func (c04) NumCases(tier string, _ int64) int {
 	if tier == "thorough" {
-		return 1200
+		return 4000
 	}
 	return 120
 }
